@@ -60,6 +60,12 @@ fn escape_help(help: &builder::StyledStr) -> String {
     escape_string(&help.to_string().replace('\n', " "), false)
 }
 
+/// The `-a "..."` argument is a double-quoted string: a `"` would end it and a `$` would be
+/// expanded as a variable when the script is sourced.
+fn escape_double_quoted(string: &str) -> String {
+    string.replace('"', "\\\"").replace('$', "\\$")
+}
+
 fn escape_name(name: &str) -> String {
     name.replace('-', "_")
 }
@@ -287,8 +293,8 @@ fn value_completion(option: &Arg) -> String {
                     // and there is no command substitution or variable expansion resulting in unexpected errors
                     Some(format!(
                         "{}\\t'{}'",
-                        escape_string(value.get_name(), true).as_str(),
-                        escape_help(value.get_help().unwrap_or_default())
+                        escape_double_quoted(escape_string(value.get_name(), true).as_str()),
+                        escape_double_quoted(&escape_help(value.get_help().unwrap_or_default()))
                     ))
                 })
                 .collect::<Vec<_>>()
